@@ -176,6 +176,11 @@ func WaitIdle() { NativeWaitIdle() }
 // decisions, with at most `preemptions` preemptions per path.
 func ExploreSchedules(preemptions int) {}
 
+// ExploreSelects makes the choice among several READY cases of a select a path
+// decision (Go picks one at random: every choice is a legal behaviour) without
+// turning on preemptions; cheaper than ExploreSchedules.  Natively a no-op.
+func ExploreSelects(on bool) {}
+
 // Yield is a visible operation (a point where the scheduler may switch).
 func Yield() {}
 
